@@ -52,7 +52,7 @@ def suite():
 
 def norm(text):
     lines = [ADDR.sub("[MEMADDR]", l.rstrip()) for l in text.splitlines() if not l.startswith("#")]
-    while lines and (not lines[-1] or re.match(r"^\(?exit (code|status)", lines[-1])):
+    while lines and (not lines[-1] or re.match(r"^\(?exit (code|status)", lines[-1]) or re.match(r"^exit \d+$", lines[-1])):
         lines.pop()
     return lines
 
@@ -76,10 +76,15 @@ def run_demo(pid, n, release):
     """-> (passes, transcript)"""
     d = SRC % pid
     prof = "--release" if release else ""
-    prefer_rs = os.path.exists("%s/demo%d.rs" % (d, n)) and (os.path.exists("%s/run_demo.sh" % d) or ROUND in ("3", "4"))
+    prefer_rs = os.path.exists("%s/demo%d.rs" % (d, n)) and (os.path.exists("%s/run_demo.sh" % d) or ROUND in ("3", "4", "5"))
     if os.path.exists("%s/demo%d.yl" % (d, n)) and not prefer_rs:
-        rc, out = sh("cargo build --manifest-path %s/Cargo.toml --offline -q %s -p yarel-cli >/dev/null 2>&1; cargo run --manifest-path %s/Cargo.toml --offline -q %s -p yarel-cli -- demo%d.yl 2>/dev/null" % (
-            WT, prof, WT, prof, n), cwd=d, timeout=600)
+        limit = ""
+        if os.path.exists("%s/demo%d.sh" % (d, n)):
+            m_ = re.search(r"ulimit -v (\d+)", open("%s/demo%d.sh" % (d, n)).read())
+            if m_:
+                limit = "ulimit -v %s; " % m_.group(1)      # the demonstration runs under an address-space budget
+        rc, out = sh("cargo build --manifest-path %s/Cargo.toml --offline -q %s -p yarel-cli >/dev/null 2>&1; bash -c '%s%s/target/%s/yarel-cli demo%d.yl 2>/dev/null'" % (
+            WT, prof, limit, WT, "release" if release else "debug", n), cwd=d, timeout=600)
         exp = open("%s/demo%d.expected" % (d, n)).read()
         ok = matches(out, exp) and rc not in (101, 134, 139)      # a panic / abort / segfault never counts as passing
         return ok, "exit=%d\n%s" % (rc, out[-1500:])
